@@ -8,7 +8,7 @@ PROPS["C09"] = dict(
               thorough=dict(cases=120000, procs=16, args=["--large"], budget_s=3000))],
     rule=("matrices are built from an explicit recipe in the case (diagonal, triplets, bands, rank-one terms, Householder reflectors): "
           "f1_spectral = Q diag(lambda) Q^T with clustered / exactly degenerate / negative / log-spread spectra; f2_diagdom = separated diagonal "
-          "(gap>=1) + symmetric noise with row sums <= 0.05 (must report Success with default search space, iter_max 50); f3_banded = banded/sparse "
+          "(gap>=1) + symmetric noise with row sums <= 0.05, <= 0.01 for update=max with tolerance=lapack (must report Success with default search space, iter_max 50; calibrated: <= 13 iterations); f3_banded = banded/sparse "
           "incl. Toeplitz; f4_hidden_root = exactly reducible matrices whose lowest eigenvalue sits in a block with large diagonal; ham = "
           "[[A,B],[-B,-A]] with A+-B strictly diagonally dominant (SPD); large = n 150..400 (thorough). Options: DPR|OLSEN x min|safe|max x 4 "
           "tolerances x search space {default, neigen+1..2neigen, 2..10 neigen, 10 neigen} x iter_max 5..100 x dense|MatrixFreeOperator. "
